@@ -11,7 +11,8 @@
    input's nSequence [s]; [lock_standard] = the 4-byte operand is a minimally encoded script
    number (standard flags).  HASH160, SHA256, the DER test and the signature check are arbitrary
    functions; only the output lengths of the hashes are assumed.
-   The premises [nlen sig <= 520], [nlen pk <= 520] are Bitcoin's limit on stack elements. *)
+   [sig] and [pk] are arbitrary byte strings (anything above the 520-byte element limit is
+   rejected by the engine and fails [sig_good]). *)
 From Coq Require Import ZArith NArith List Bool.
 From KV Require Import Common.Verdict Model.C27 Model.C28 Proofs.C28.
 Import ListNotations.
@@ -25,7 +26,7 @@ Theorem spend_characterisation :
          (checksig : bytes -> bytes -> sighash -> bool),
     (forall x, length (hash160 x) = 20%nat) -> (forall x, length (sha256 x) = 32%nat) ->
     forall w tx i amount d sig pk,
-      dep_wf d -> (i < length (tx_ins tx))%nat -> nlen sig <= 520 -> nlen pk <= 520 ->
+      dep_wf d -> (i < length (tx_ins tx))%nat ->
       engine_on_deposit hash160 sha256 der_strict checksig w tx i amount d sig pk =
       if spend_allowed (dp_wpkh d) (dp_rpkh d) (dp_lock d) (hash160 pk)
                        (sig_good der_strict checksig w tx i amount d sig pk)
@@ -39,7 +40,7 @@ Theorem wallet_key_spends_any_time :
          (checksig : bytes -> bytes -> sighash -> bool),
     (forall x, length (hash160 x) = 20%nat) -> (forall x, length (sha256 x) = 32%nat) ->
     forall w tx i amount d sig pk,
-      dep_wf d -> (i < length (tx_ins tx))%nat -> nlen sig <= 520 -> nlen pk <= 520 ->
+      dep_wf d -> (i < length (tx_ins tx))%nat ->
       hash160 pk = dp_wpkh d ->
       sig_good der_strict checksig w tx i amount d sig pk = true ->
       engine_on_deposit hash160 sha256 der_strict checksig w tx i amount d sig pk = Accept.
@@ -51,7 +52,7 @@ Theorem refund_key_iff_locktime :
          (checksig : bytes -> bytes -> sighash -> bool),
     (forall x, length (hash160 x) = 20%nat) -> (forall x, length (sha256 x) = 32%nat) ->
     forall w tx i amount d sig pk,
-      dep_wf d -> (i < length (tx_ins tx))%nat -> nlen sig <= 520 -> nlen pk <= 520 ->
+      dep_wf d -> (i < length (tx_ins tx))%nat ->
       hash160 pk = dp_rpkh d -> dp_rpkh d <> dp_wpkh d ->
       sig_good der_strict checksig w tx i amount d sig pk = true ->
       (engine_on_deposit hash160 sha256 der_strict checksig w tx i amount d sig pk = Accept <->
@@ -85,7 +86,7 @@ Theorem no_other_key :
          (checksig : bytes -> bytes -> sighash -> bool),
     (forall x, length (hash160 x) = 20%nat) -> (forall x, length (sha256 x) = 32%nat) ->
     forall w tx i amount d sig pk,
-      dep_wf d -> (i < length (tx_ins tx))%nat -> nlen sig <= 520 -> nlen pk <= 520 ->
+      dep_wf d -> (i < length (tx_ins tx))%nat ->
       engine_on_deposit hash160 sha256 der_strict checksig w tx i amount d sig pk = Accept ->
       sig_good der_strict checksig w tx i amount d sig pk = true /\
       (hash160 pk = dp_wpkh d \/
@@ -101,7 +102,7 @@ Theorem no_other_key_injective :
     (forall x, length (hash160 x) = 20%nat) -> (forall x, length (sha256 x) = 32%nat) ->
     (forall a b, hash160 a = hash160 b -> a = b) ->
     forall w tx i amount d sig pk wallet_pk refund_pk,
-      dep_wf d -> (i < length (tx_ins tx))%nat -> nlen sig <= 520 -> nlen pk <= 520 ->
+      dep_wf d -> (i < length (tx_ins tx))%nat ->
       dp_wpkh d = hash160 wallet_pk -> dp_rpkh d = hash160 refund_pk ->
       engine_on_deposit hash160 sha256 der_strict checksig w tx i amount d sig pk = Accept ->
       pk = wallet_pk \/
@@ -117,7 +118,7 @@ Theorem embedded_data_inert :
     (forall x, length (hash160 x) = 20%nat) -> (forall x, length (sha256 x) = 32%nat) ->
     forall w tx i amount d d' sig sig' pk,
       dep_wf d -> dep_wf d' -> same_conditions d d' ->
-      (i < length (tx_ins tx))%nat -> nlen sig <= 520 -> nlen sig' <= 520 -> nlen pk <= 520 ->
+      (i < length (tx_ins tx))%nat ->
       sig_good der_strict checksig w tx i amount d sig pk =
       sig_good der_strict checksig w tx i amount d' sig' pk ->
       engine_on_deposit hash160 sha256 der_strict checksig w tx i amount d sig pk =
@@ -179,6 +180,33 @@ Theorem predicted_verdict_passes_spec : forall (c : dep_case) (s : spend),
     Concrete.spec_spend c s = true.
 Proof. exact Proofs.C28.predicted_verdict_passes_spec. Qed.
 Print Assumptions predicted_verdict_passes_spec.
+
+(* the embedding requirement of the executable property holds of the model's script *)
+Theorem model_script_embeds : forall di s,
+    arrays_ok di = true -> script_of di = Some s -> Concrete.embeds di s = true.
+Proof. exact Proofs.C28.model_script_embeds. Qed.
+Print Assumptions model_script_embeds.
+
+Theorem embeds_sound : forall di script,
+    Concrete.embeds di script = true ->
+    exists e dep ops, parse script = Some (OPush e dep :: ODrop :: ops) /\
+      hex_decode (trim0x (di_depositor di)) = Some dep /\
+      match di_extra di with
+      | Some x => exists e1 e2 r, ops = OPush e1 x :: ODrop :: OPush e2 (di_blinding di) :: ODrop :: ODup :: r
+      | None => exists e2 r, ops = OPush e2 (di_blinding di) :: ODrop :: ODup :: r
+      end.
+Proof. exact Proofs.C28.embeds_sound. Qed.
+Print Assumptions embeds_sound.
+
+Theorem spec_ok_sound : forall c : dep_case,
+    Concrete.spec_ok c = true ->
+    match dc_script c with
+    | Some script => Concrete.embeds (dc_in c) script = true /\
+                     forall s, In s (dc_spends c) -> Concrete.spec_spend c s = true
+    | None => script_of (dc_in c) = None /\ dc_spends c = []
+    end.
+Proof. exact Proofs.C28.spec_ok_sound. Qed.
+Print Assumptions spec_ok_sound.
 
 Theorem judge_agree_sound : forall c : dep_case,
     Concrete.judge c = Agree -> Concrete.spec_ok c = true /\ Concrete.agree c = true.
